@@ -14,8 +14,9 @@ TECHNIQUE = ("hypothesis-generated labelled graphs (networkx and rustworkx) with
 RULE = (
     "Specs: undirected simple graphs on 1-7 nodes (empty / sparse / dense / complete, node labels contiguous, "
     "non-contiguous ints, strings or mixed, random edge insertion order and orientation) built as nx.Graph or "
-    "rx.PyGraph; weighted digraphs on 2-4 nodes (<= 9 arcs) as nx.DiGraph or rx.PyDiGraph. For every graph ALL "
-    "2^n bitstrings are evaluated. Oracle: the diagonal of the cost Hamiltonian (own evaluation of pauli_rep; "
+    "rx.PyGraph (loss_hamiltonian, one wire per edge: a random subset of <= 14 edges); weighted digraphs on 2-4 "
+    "nodes (<= 9 arcs) as nx.DiGraph or rx.PyDiGraph. For every graph ALL 2^n bitstrings are evaluated. Oracle: "
+    "the diagonal of the cost Hamiltonian (own evaluation of pauli_rep; "
     "non-I/Z words are violations) equals the combinatorial objective computed by brute force: maxcut = -cut(x); "
     "constrained MIS/clique = n-2|S|, MVC = 2|S|-n; unconstrained: minimisers are exactly the brute-force optimal "
     "feasible sets AND the docstring formula evaluated on Z=+-1; edge_driver = #penalised edges + const (const fixed "
@@ -37,6 +38,9 @@ ASSUMPTIONS = [
 BUDGET = {"quick": {"examples": 500}, "thorough": {"examples": 16000, "shards": 16}}
 SHRINK_LISTS = ("edges",)
 TOL = 1e-9
+LOSS_MAX_EDGES = 14      # undirected loss_hamiltonian: one wire per edge -> at most 2^14 enumerated bitstrings
+MAX_WIRES = 16           # hard ceiling of a register whose 2^n bitstrings are enumerated (defensive, see check)
+MAX_DENSE_WIRES = 12     # hard ceiling of a register on which a dense 2^n x 2^n mixer matrix is built
 
 UNDIRECTED = ["maxcut", "mis", "mvc", "clique", "edge_driver", "bit_flip_mixer", "xy_mixer", "bit_driver", "x_mixer",
               "loss"]
@@ -74,6 +78,12 @@ def _undirected(draw, tier):
         p = {"sparse": 0.25, "half": 0.5, "dense": 0.8}[dens]
         chosen = [e for e in pairs if draw(st.floats(0, 1)) < p]
     chosen = list(draw(st.permutations(chosen))) if chosen else []
+    if fn == "loss":
+        # loss_hamiltonian acts on one wire PER EDGE, so the enumeration is over 2^m (not 2^n) bitstrings: a dense graph on
+        # 8 nodes has 28 edges -> bits(28) is a 60 GB array (this killed a thorough-tier worker). Keep a random subset of the
+        # edges (the permutation above makes the kept subset and its insertion order random), so the size is bounded by
+        # construction: 2^14 states.
+        chosen = chosen[:LOSS_MAX_EDGES]
     edges = [[j, i] if draw(st.booleans()) else [i, j] for i, j in chosen]
     spec = {"fn": fn, "lib": draw(st.sampled_from(["nx", "rx"])), "directed": False,
             "labels": draw(_labels(n)), "edges": edges}
@@ -228,6 +238,12 @@ def check(spec):
     fn, labels, edges = spec["fn"], spec["labels"], [tuple(e) for e in spec["edges"]]
     n = len(labels)
     feats = {"fn": fn, "lib": spec["lib"], "constrained": spec.get("constrained")}
+    # size guard for hand-written / old replay specs only: the generators above never exceed these by construction
+    # (undirected: n <= 8 wires, loss: m <= LOSS_MAX_EDGES wires, directed: m <= 11 wires, dense matrices <= 2^11 x 2^11).
+    wires = len(edges) if (spec["directed"] or fn == "loss") else n
+    diagonal_only = not spec["directed"] and fn in ("loss", "bit_driver", "edge_driver")     # no dense 2^n x 2^n matrix
+    if wires > (MAX_WIRES if diagonal_only else MAX_DENSE_WIRES):
+        raise Reject(f"register of {wires} wires is beyond the enumeration size of this harness")
     if spec["directed"]:
         return _check_directed(spec, qaoa, feats)
     if fn == "bit_driver":
